@@ -2,7 +2,7 @@
    k = K - 6; B k = 2^(2^K); val is the integer a limb tree denotes; wf = every limb in [0, 2^64);
    thr = __RECINT_THRESHOLD_KARA - 6 (every theorem holds for every threshold). *)
 From Coq Require Import ZArith.
-From C06 Require Import Model ProofsBase ProofsRepr ProofsAdd ProofsBits ProofsShift ProofsMul ProofsKara ProofsMulTop ProofsSubW ProofsDiv ProofsDivTop ProofsDivFinal ProofsModn ProofsSquare ProofsExp ProofsArazi ProofsGcd ProofsInvMod ProofsBezout ProofsSigned ProofsMisc ProofsProps.
+From C06 Require Import Model ProofsBase ProofsRepr ProofsAdd ProofsBits ProofsShift ProofsMul ProofsKara ProofsMulTop ProofsSubW ProofsDiv ProofsDivTop ProofsDivFinal ProofsModn ProofsSquare ProofsExp ProofsArazi ProofsGcd ProofsInvMod ProofsBezout ProofsSigned ProofsMisc ProofsLimbs ProofsMisc2 ProofsAlias ProofsProps.
 Local Open Scope Z_scope.
 
 Theorem C06_representation : Repr_exact.            Proof. exact repr_exact. Qed.
@@ -103,3 +103,15 @@ Theorem C06_lmul_word_exact : Lmul_word_exact.      Proof. exact lmul_word_exact
 Print Assumptions C06_lmul_word_exact.
 Theorem C06_signed_mod_n_exact : Smod_n_exact.      Proof. exact smod_n_exact. Qed.
 Print Assumptions C06_signed_mod_n_exact.
+Theorem C06_limb_access_exact : Limb_access_exact.  Proof. exact limb_access_exact. Qed.
+Print Assumptions C06_limb_access_exact.
+Theorem C06_mpz_to_ruint_exact : Mpz_to_ruint_exact. Proof. exact mpz_to_ruint_exact. Qed.
+Print Assumptions C06_mpz_to_ruint_exact.
+Theorem C06_rint_conversion_lossless : Rint_conversion_exact. Proof. exact rint_conversion_exact. Qed.
+Print Assumptions C06_rint_conversion_lossless.
+Theorem C06_div_native_word_exact : Div_word_exact. Proof. exact div_word_exact. Qed.
+Print Assumptions C06_div_native_word_exact.
+Theorem C06_signed_inverse_modulo_exact : Sinv_mod_exact. Proof. exact sinv_mod_exact. Qed.
+Print Assumptions C06_signed_inverse_modulo_exact.
+Theorem C06_lmul_in_place_alias_safe : Lmul_in_place_safe. Proof. exact lmul_in_place_safe. Qed.
+Print Assumptions C06_lmul_in_place_alias_safe.
